@@ -171,7 +171,7 @@ class Src:
                     continue
                 close = self.match_brace(j)
                 yield (norm_join([self.t(t) for t in self.code[k:j]]), k, j, close)
-                k = close + 1
+                k = j + 1   # keep scanning inside: items may be nested (e.g. a Visitor impl inside fn deserialize)
             elif tok[0] == "punct" and s == "{":
                 # descend into mods / fns: items may be nested (e.g. Visitor impl inside fn deserialize)
                 k += 1
